@@ -1152,9 +1152,53 @@ func genRx(r *Rng, names []string) string {
 	}
 }
 
-// genRange draws a numeric range expression a / a: / :b / a:b with signs and units.
-func genRange(r *Rng) string {
-	num := func() string {
+// genRange draws a numeric range expression a / a: / :b / a:b with signs and units. Half of the
+// bounds are taken from the numeric label values of the profile (exact boundary, ±1, and the same
+// quantity expressed in another unit of the family) so that >= / > and <= / < differ.
+func genRange(r *Rng, p *profile.Profile, exact bool) string {
+	type nv struct {
+		v int64
+		u string
+	}
+	var pool []nv
+	units, _ := p.NumLabelUnits()
+	for _, s := range p.Sample {
+		for k, vs := range s.NumLabel {
+			for _, v := range vs {
+				pool = append(pool, nv{v, units[k]})
+			}
+		}
+	}
+	bound := func() (string, string) { // number, unit
+		if len(pool) > 0 && (exact || r.Chance(60)) {
+			x := pool[r.Intn(len(pool))]
+			v, u := x.v, x.u
+			switch u { // the unit the key was given by NumLabelUnits; keys without unit get the key name
+			case "bytes", "kb", "ms", "ns", "s":
+			default:
+				u = ""
+			}
+			switch {
+			case u == "bytes" && r.Chance(15):
+				u = "ms" // same number, unit of another family: must not match
+			case u == "s" && r.Chance(15):
+				u = "b"
+			case u == "bytes" && v%1024 == 0 && r.Chance(40):
+				v, u = v/1024, "kb"
+			case u == "kb" && r.Chance(30):
+				v, u = v*1024, "b"
+			case u == "ms" && r.Chance(30):
+				v, u = v*1000, "us"
+			case u == "s" && r.Chance(30):
+				v, u = v*1000, "ms"
+			case u == "ns" && v%1000 == 0 && r.Chance(40):
+				v, u = v/1000, "us"
+			}
+			if !exact || r.Chance(25) {
+				v += int64(r.Intn(3)) - 1
+			}
+			return fmt.Sprint(v), u
+		}
 		v := []int{0, 1, 2, 3, 1000, 1024, 2048, 2999, 500, 4096}[r.Intn(10)]
 		s := fmt.Sprint(v)
 		switch r.Intn(6) {
@@ -1163,37 +1207,42 @@ func genRange(r *Rng) string {
 		case 1:
 			s = "+" + s
 		}
-		return s
+		return s, []string{"", "", "b", "kb", "KB", "bytes", "mb", "ms", "ns", "s", "us", "n", "foo"}[r.Intn(13)]
 	}
-	unit := func() string {
-		return []string{"", "", "b", "kb", "KB", "bytes", "mb", "ms", "ns", "s", "us", "n", "foo"}[r.Intn(13)]
+	a, ua := bound()
+	b, ub := bound()
+	form := r.Intn(5)
+	if exact {
+		form = r.Intn(4)
 	}
-	switch r.Intn(5) {
+	switch form {
 	case 0:
-		return num() + unit()
+		return a + ua
 	case 1:
-		return num() + unit() + ":"
+		return a + ua + ":"
 	case 2:
-		return ":" + num() + unit()
+		return ":" + a + ua
 	case 3:
-		u := unit()
-		if r.Chance(70) {
-			return num() + u + ":" + num() + u
+		if r.Chance(60) {
+			return a + ua + ":" + b + ua
 		}
-		return num() + u + ":" + num() + unit()
+		return a + ua + ":" + b + ub
 	default:
-		return num() + unit() + []string{":x", "::", " ", ":1:2"}[r.Intn(4)] // malformed: falls back to regexp
+		return a + ua + []string{":x", "::", " ", ":1:2"}[r.Intn(4)] // malformed: falls back to regexp
 	}
 }
 
-func genTagFilter(r *Rng, p *profile.Profile) string {
+func genTagFilter(r *Rng, p *profile.Profile, boundary bool) string {
 	keys := keyCands(p)
 	key := ""
 	if r.Chance(40) && len(keys) > 0 {
 		key = keys[r.Intn(len(keys))] + "="
 	}
+	if boundary {
+		return key + genRange(r, p, true)
+	}
 	if r.Chance(50) {
-		return key + genRange(r)
+		return key + genRange(r, p, false)
 	}
 	cands := tagValCands(p)
 	n := 1 + r.Intn(2)
@@ -1458,6 +1507,10 @@ func runC06(c *Ctx) {
 	profs := make([]*profile.Profile, nCli)
 	for i := range cases {
 		p := genC06Profile(r, true)
+		boundary := i%3 == 2 // tag range with bounds equal to label values of the profile
+		for k := 0; boundary && k < 20 && len(keyCands(p)) == 0; k++ {
+			p = genC06Profile(r, true)
+		}
 		// what pprof reads back is what the case is about
 		var buf bytes.Buffer
 		p.Write(&buf)
@@ -1471,14 +1524,17 @@ func runC06(c *Ctx) {
 		pick := func(k string) {
 			switch k {
 			case "tagfocus", "tagignore":
-				opts[k] = genTagFilter(r, p)
+				opts[k] = genTagFilter(r, p, boundary)
 			case "tagshow", "taghide":
 				opts[k] = genRx(r, keyCands(p))
 			default:
 				opts[k] = genRx(r, names)
 			}
 		}
-		if i%2 == 0 {
+		if boundary {
+			pick([]string{"tagfocus", "tagignore"}[r.Intn(2)])
+			c.Res.Hit("cli:tag-range-boundary-case")
+		} else if i%2 == 0 {
 			pick(c06CliOpts[(i/2)%len(c06CliOpts)]) // single option: frame-level oracle applies
 		} else {
 			for k, n := 0, 2+r.Intn(3); k < n; k++ {
